@@ -253,6 +253,10 @@ def rand_table(ctx, tag, i):
     metrics = rng.sample(METRICS, rng.randint(1, 6))
     n = rng.randint(1, 30)
     subjects = [f"s{k}" for k in range(n)]
+    if i % 5 == 2:
+        # subject names that differ only in case or in surrounding blanks are different subjects
+        subjects = [nm for k in range(n) for nm in (f"P{k:02d}_a", f"P{k:02d}_A", f" P{k:02d}_a", f"p{k:02d}_a ")][:n]
+        ctx.count("look_alike_subject_names")
     rng.shuffle(subjects)
     W = len(groups) * len(metrics)
     colmode = [rng.choice(["finite", "finite", "mixed", "mixed", "none"]) for _ in range(W)]
@@ -279,6 +283,8 @@ def run(ctx):
     one_table(ctx, ["liver"], ["sq_assd", "sq_dsc"], ["s0", "s1", "s2", "s3"],
               [[0.5, 0.9], ["inf", 0.2], [1.5, 0.5], ["-inf", "nan"]], "corpus.inf")
     one_table(ctx, ["liver"], ["sq_dsc"], ["s0", "s1", "s2"], [[0.2], [0.9], [0.5]], "corpus.unsorted-no-missing")
+    one_table(ctx, ["liver"], ["tp", "sq_dsc"], ["P01_a", "P01_A", "p02", "P02", " P03", "P03 ", "P03"],
+              [[1, 0.5], [0, 0.25], [2, 0.75], [3, 0.125], [4, 0.9], [5, 0.8], [6, 0.7]], "corpus.look-alike-subjects")
     repeated_value_tables(ctx)
     optimized_interpreter_tables(ctx, ctx.scale(15, 100))
     for i in range(ctx.scale(150, 1500)):
